@@ -6,6 +6,7 @@ import (
 	"io"
 	"net"
 	"net/http"
+	"os"
 	"regexp"
 	"strconv"
 	"strings"
@@ -366,6 +367,17 @@ func (a *azBody) Close() error {
 	return nil
 }
 
+// rawHeader finds a header whatever the case of its key (the Azure SDK sets
+// keys in lower case, bypassing canonicalisation).
+func rawHeader(req *http.Request, name string) string {
+	for k, v := range req.Header {
+		if strings.EqualFold(k, name) && len(v) > 0 {
+			return v[0]
+		}
+	}
+	return ""
+}
+
 // Do implements policy.Transporter.
 func (b *azBackend) Do(req *http.Request) (*http.Response, error) {
 	resp := &http.Response{Proto: "HTTP/1.1", ProtoMajor: 1, ProtoMinor: 1, Header: http.Header{}, Request: req, Body: http.NoBody}
@@ -383,6 +395,9 @@ func (b *azBackend) Do(req *http.Request) (*http.Response, error) {
 	up := b.upPlans[hash]
 	obj, ok := b.objects[prefix+"/"+hash]
 	b.mu.Unlock()
+	if os.Getenv("C12_DEBUG_AZ") != "" {
+		fmt.Fprintf(os.Stderr, "AZ %s %s range=%q/%q plan=%v have=%v len=%d\n", req.Method, req.URL.Path[len(req.URL.Path)-12:], rawHeader(req, "x-ms-range"), req.Header.Get("Range"), p, ok, len(obj))
+	}
 	notFound := func() {
 		set(404, "The specified blob does not exist.")
 		resp.Header.Set("x-ms-error-code", "BlobNotFound")
@@ -454,7 +469,7 @@ func (b *azBackend) Do(req *http.Request) (*http.Response, error) {
 		}
 		// A ranged retry (the SDK's RetryReader) gets the rest of what we
 		// are willing to deliver.
-		if rng := req.Header.Get("x-ms-range"); rng != "" || req.Header.Get("Range") != "" {
+		if rng := rawHeader(req, "x-ms-range"); rng != "" || req.Header.Get("Range") != "" {
 			if rng == "" {
 				rng = req.Header.Get("Range")
 			}
